@@ -255,7 +255,8 @@ def extract(unit_cfg, src="/repo/src"):
     cfg["src"] = src
     tmp = os.path.join(ROOT, ".cache")
     os.makedirs(tmp, exist_ok=True)
-    p = os.path.join(tmp, "extract-%s-%d.json" % (unit_cfg["name"], os.getpid()))
+    import uuid
+    p = os.path.join(tmp, "extract-%s-%d-%s.json" % (unit_cfg["name"], os.getpid(), uuid.uuid4().hex[:8]))
     with open(p, "w") as fh:
         json.dump(cfg, fh)
     try:
